@@ -174,7 +174,8 @@ theorem valueDiags_complete (s : RSchema) (vars : List RVarDef) : ∀ (k : Nat) 
           simp only at h hl
           obtain ⟨hnod, hall⟩ := hl
           obtain ⟨fd, hfd, hlk⟩ := hall kv hkv
-          simp only [List.flatMap_eq_nil_iff] at h
+          simp only [List.append_eq_nil_iff, List.flatMap_eq_nil_iff] at h
+          replace h := h.2
           have hmem : fd ∈ fields := List.mem_of_find?_eq_some hfd
           have hname : fd.name = kv.1 := by simpa using List.find?_some hfd
           have h1 := h fd hmem
